@@ -28,6 +28,76 @@ from vlib.spec import LOOP_SHAPES, dag_spec, descendants, make_loop, ok, stage
 LEVEL = "exploration"
 
 
+def resettable(spec: dict[str, Any], target: str) -> set[str]:
+    """The stages that depend only on ``target`` (fan-in aware fixed point), excluding the target."""
+    scope = {target}
+    grew = True
+    while grew:
+        grew = False
+        for s in spec["stages"]:
+            if s["ref"] not in scope and s["req"] and all(r in scope for r in s["req"]):
+                scope.add(s["ref"])
+                grew = True
+    return scope - {target}
+
+
+def rearm_clauses(spec: dict[str, Any], run: Run) -> list[tuple[str, str]]:
+    """"A backward jump re-arms exactly the target and the stages that depend only on it": judged on the durable status
+    writes of every applied backward jump (audit rows written while JumpToStage was handled)."""
+    import json as _json
+
+    refs = {s["ref"] for s in spec["stages"]}
+    audit = run.w.audit()
+    payloads = {}
+    for _seq, _step, _writer, op, _tbl, row_id, mtype, payload in run.w.qlog():
+        if mtype == "JumpToStage" and op == "ins":
+            try:
+                payloads[row_id] = _json.loads(payload)
+            except Exception:  # noqa: BLE001
+                pass
+    by_step: dict[int, dict[str, Any]] = {}
+    for step, typ, row_id, _acked in run.deliveries:
+        if typ == "JumpToStage" and row_id in payloads:
+            by_step[step] = payloads[row_id]
+    status = {r: "NOT_STARTED" for r in refs}
+    out: list[tuple[str, str]] = []
+    i = 0
+    while i < len(audit):
+        seq, step, writer, kind, ident, old, new = audit[i]
+        if writer == "JumpToStage" and kind == "stage" and step in by_step:
+            j = i
+            rows = []
+            while j < len(audit) and audit[j][1] == step and audit[j][2] == "JumpToStage":
+                if audit[j][3] == "stage":
+                    rows.append(audit[j])
+                j += 1
+            p = by_step[step]
+            target = p.get("target_stage_ref_id")
+            source = (p.get("stage_id") or "").replace("W1-", "")
+            rearmed = {r[4].replace("W1-", "") for r in rows if r[6] == "NOT_STARTED"} & refs
+            if target in refs and target in rearmed | {x for x in refs if status[x] == "NOT_STARTED"} and rearmed:
+                expected = ({target} | resettable(spec, target)) - {source}
+                must = {x for x in expected if status[x] != "NOT_STARTED"}
+                missing = sorted(must - rearmed)
+                extra = sorted(rearmed - expected - {source})
+                if missing:
+                    out.append(("rearm-set-missing", f"jump {source} -> {target} (step {step}) did not re-arm {missing} (status then: {[status[x] for x in missing]}); re-armed {sorted(rearmed)}"))
+                if extra:
+                    out.append(("rearm-set-extra", f"jump {source} -> {target} (step {step}) re-armed {extra}, which do not depend only on the target"))
+            for r in rows:
+                rid = r[4].replace("W1-", "")
+                if rid in status:
+                    status[rid] = r[6]
+            i = j
+            continue
+        if kind == "stage":
+            rid = ident.replace("W1-", "")
+            if rid in status and new is not None:
+                status[rid] = new
+        i += 1
+    return out
+
+
 def judge(c: Campaign, spec: dict[str, Any], run: Run, desc: Any, extra=()) -> None:
     model = loop_model(spec)
     got = run.outcome()
@@ -60,6 +130,7 @@ def judge(c: Campaign, spec: dict[str, Any], run: Run, desc: Any, extra=()) -> N
         elif have != want:
             kind = "extra-execution" if have > want else "missing-execution"
             viol.append((kind + (f"|stuck:{stuck}" if stuck and have < want else ""), f"{r}: executed {have}x, model {want}x"))
+    viol.extend(rearm_clauses(spec, run))
     ids: dict[str, int] = {}
     for mid, typ in run.w.handler_calls:
         if typ == "JumpToStage":
